@@ -69,6 +69,13 @@ fire("C07", "R4", "validate-without-reset", "controller/block.go", "\t// reset t
 benign("C07", "clone-tracker-after-wrap", "fsm/state.go",
        "\t\tpreTxSlashTracker := s.slashTracker.Clone()\n\t\t// wrap the store in a 'database transaction' in case a rollback to the previous valid transaction is needed\n\t\ttxn, e := s.TxnWrap()\n\t\tif e != nil {\n\t\t\treturn e\n\t\t}\n",
        "\t\ttxn, e := s.TxnWrap()\n\t\tif e != nil {\n\t\t\treturn e\n\t\t}\n\t\tsavedTracker := s.slashTracker.Clone()\n\t\tpreTxSlashTracker := savedTracker\n")
+fire("C07", "R6", "oversize-caches-kept", "fsm/state.go", "\t// the 'oversize' transactions ran inside a wrapper that is dropped on return: discard the FSM caches that still hold their effects\n\tif oversize {\n\t\ts.ResetCaches()\n\t}\n", "")
+fire("C07", "R6", "reset-at-wrap-not-at-end", "fsm/state.go",
+     [("\t\t\toversize = true\n", "\t\t\toversize = true\n\t\t\ts.ResetCaches()\n"), ("\tif oversize {\n\t\ts.ResetCaches()\n\t}\n", "")], None)
+benign("C07", "oversize-reset-unconditional", "fsm/state.go", "\tif oversize {\n\t\ts.ResetCaches()\n\t}\n", "\ts.ResetCaches()\n")
+benign("C07", "oversize-reset-deferred", "fsm/state.go", "\t// the 'oversize' transactions ran inside a wrapper that is dropped on return: discard the FSM caches that still hold their effects\n\tif oversize {\n\t\ts.ResetCaches()\n\t}\n",
+       "\tdefer func() {\n\t\tif oversize {\n\t\t\ts.ResetCaches()\n\t\t}\n\t}()\n")
+fire("C11", "R7", "oversize-caches-kept", "fsm/state.go", "\t// the 'oversize' transactions ran inside a wrapper that is dropped on return: discard the FSM caches that still hold their effects\n\tif oversize {\n\t\ts.ResetCaches()\n\t}\n", "")
 # ---------------------------------------------------------------- C08
 fire("C08", "R1", "unsorted-sequential-commit", "store/smt.go", "\tsort.Slice(s.operations, func(i, j int) bool {\n\t\treturn s.operations[i].Key.cmp(s.operations[j].Key) < 0\n\t})\n\t// execute in a single tree", "\t// execute in a single tree")
 fire("C08", "R2", "cleanup-not-deferred", "store/smt.go", "\tdefer func() {\n\t\tif cleanupErr := cleanup(); cleanupErr != nil && err == nil {\n\t\t\terr = cleanupErr\n\t\t}\n\t}()\n", "\t_ = cleanup\n")
@@ -125,7 +132,7 @@ fire("C17", "R3", "sign-ephemeral-key", "p2p/encrypt.go", "\t\tSignature: privat
 fire("C17", "R4", "unbounded-chunk", "p2p/encrypt.go", "\tif chunkLength > crypto.MaxDataSize {\n\t\treturn 0, ErrChunkLargerThanMax()\n\t}\n", "")
 benign("C17", "bound-check-flipped", "p2p/encrypt.go", "\tif chunkLength > crypto.MaxDataSize {\n", "\tif crypto.MaxDataSize < chunkLength {\n")
 # ---------------------------------------------------------------- C18
-fire("C18", "R3", "append-before-cap", "p2p/conn.go", "\tif int(maxMessageSize) < msgAssemblerLen+packetLen {\n\t\ts.msgAssembler = s.msgAssembler[:0]\n\t\treturn MaxMessageExceededSlash, ErrMaxMessageSize()\n\t}\n", "")
+fire("C18", "R3", "cap-checks-packet-only", "p2p/conn.go", [("\tmsgAssemblerLen, packetLen := len(s.msgAssembler), len(packet.Bytes)\n", "\tpacketLen := len(packet.Bytes)\n"), ("\tif int(maxMessageSize) < msgAssemblerLen+packetLen {\n", "\tif int(maxMessageSize) < packetLen {\n")], None)
 fire("C18", "R5", "eof-on-every-packet", "p2p/conn.go", "\t\t\tEof:      i == len(chunks)-1,", "\t\t\tEof:      i <= len(chunks)-1,")
 fire("C18", "R2", "second-assembler-reader", "p2p/conn.go", "func (c *MultiConn) sendHeartbeat() {\n", "func (c *MultiConn) sendHeartbeat() {\n\tif s := c.streams[lib.Topic_TX]; s != nil && len(s.msgAssembler) > 1<<20 {\n\t\ts.msgAssembler = s.msgAssembler[:0]\n\t}\n")
 benign("C18", "queue-loop-inline-ok", "p2p/conn.go", "\t\tok := s.queueSend(packet, sendStart, metrics)\n\t\tif !ok {\n\t\t\treturn false\n\t\t}\n", "\t\tif !s.queueSend(packet, sendStart, metrics) {\n\t\t\treturn false\n\t\t}\n")
@@ -146,9 +153,12 @@ def main():
     bad = 0
     for prop, name, file, old, new in E:
         src = open(os.path.join(REPO, file)).read()
-        if src.count(old) < 1:
+        edits = old if isinstance(old, list) else [(old, new)]
+        if any(src.count(o) < 1 for o, _ in edits):
             print("PATTERN NOT FOUND:", prop, name, file); bad += 1; continue
-        dst = src.replace(old, new, 1)
+        dst = src
+        for o, n in edits:
+            dst = dst.replace(o, n, 1)
         diff = "".join(difflib.unified_diff(src.splitlines(True), dst.splitlines(True), "a/" + file, "b/" + file))
         d = os.path.join(OUT, prop); os.makedirs(d, exist_ok=True)
         open(os.path.join(d, name + ".patch"), "w").write(diff)
